@@ -439,6 +439,24 @@ func rarePayload(r *sim.Rng, tier string) (pl sim.Payload, dictCap int, ok bool)
 	return pl, 0, false
 }
 
+// veryFarPayload: a short incompressible piece, more than 16 MiB of a single
+// byte value, the piece again - one match whose distance needs a dictionary of
+// 32 MiB (what gxz -8 uses). Expensive (about a second, 250 MB): one case per
+// quick batch of a writer check, a few per thorough batch.
+func veryFarPayload(r *sim.Rng) (sim.Payload, int) {
+	x := sim.Payload{Kind: "prng", N: r.Range(100<<10, 256<<10), Seed: r.Uint64()}
+	gap := r.Range(16<<20+1000, 23<<20)
+	return sim.Payload{Kind: "concat", Parts: []sim.Payload{x, {Kind: "run", N: gap, A: r.Intn(256)}, x}}, 1 << 25
+}
+
+// isVeryFarCase picks the run indices that get the veryFarPayload.
+func isVeryFarCase(tier string, idx int) bool {
+	if tier == "thorough" {
+		return idx%60000 == 555
+	}
+	return tier == "quick" && idx == 555
+}
+
 // ---- guarded calls into the library ----
 
 // PanicInfo describes a recovered panic of library code.
